@@ -227,10 +227,64 @@ pub fn run(cfg: &RunCfg) -> CheckReport {
         }
     });
     rep.part("permutations", json!({"unique_items": ms, "junk_copies_per_side": "0..=2, every placement"}), ex);
+    if !rep.has_violation() {
+        super::large::run_part(cfg, &mut rep, &[Algorithm::Patience], &|_| usize::MAX, check_large);
+    }
     rep
 }
 
+/// the same oracle on one large input (u32 items)
+pub fn check_large(_alg: Algorithm, inp: &super::large::LargeInput) -> Result<(bool, u64, u64), String> {
+    use std::collections::HashMap;
+    let (old, new) = (&inp.old[..], &inp.new[..]);
+    let (n, m) = (old.len(), new.len());
+    let mut co: HashMap<u32, (usize, usize)> = HashMap::new();
+    for (i, &x) in old.iter().enumerate() {
+        let e = co.entry(x).or_insert((0, i));
+        e.0 += 1;
+    }
+    let mut cn: HashMap<u32, (usize, usize)> = HashMap::new();
+    for (j, &x) in new.iter().enumerate() {
+        let e = cn.entry(x).or_insert((0, j));
+        e.0 += 1;
+    }
+    let mut u: Vec<(usize, usize)> = vec![];
+    for (i, &x) in old.iter().enumerate() {
+        if co[&x].0 == 1 {
+            if let Some(&(1, j)) = cn.get(&x) {
+                u.push((i, j));
+            }
+        }
+    }
+    let l = lis(&u);
+    let anchor_of: HashMap<usize, usize> = u.iter().copied().collect();
+    let ops = capture(Algorithm::Patience, old, 0..n, new, 0..m)?;
+    let mut matched = 0;
+    for op in &ops {
+        if op.tag() == DiffTag::Equal {
+            for (i, j) in op.old_range().zip(op.new_range()) {
+                if anchor_of.get(&i) == Some(&j) {
+                    matched += 1;
+                }
+            }
+        }
+    }
+    if matched != l {
+        return Err(format!(
+            "captured Patience ops pair {} of the {} items that are unique on both sides; the longest in-order chain has {}",
+            matched,
+            u.len(),
+            l
+        ));
+    }
+    Ok((l >= 2, ops.len() as u64, ops_fp(&ops)))
+}
+
 pub fn replay(case: &Value) -> Result<String, String> {
+    if let Some(r) = super::large::resolve(case) {
+        let (alg, inp) = r?;
+        return check_large(alg, &inp).map(|o| format!("holds; fingerprint {:x}", o.2));
+    }
     let old = parse_seq(case, "old")?;
     let new = parse_seq(case, "new")?;
     check_pair(&old, &new).map(|r| format!("holds; fingerprint {:x}", r.2))
